@@ -366,6 +366,33 @@ func checkMain(args []string) {
 		fmt.Println("no obligations generated for", *prop)
 		report("empty", "no obligations", map[string]any{"note": "the check generated zero obligations"}, false)
 	}
+	// thorough tier: bounded stand-ins. The replay drivers are model-based bounded searches over the real
+	// code; here they run unfocused and deeper. They are NOT proof and are never added to "discharged";
+	// a failing input they find is a violation with that input as its replay.
+	var standins []map[string]any
+	if *tier == "thorough" {
+		for _, pk := range standinPkgs[*prop] {
+			t1 := time.Now()
+			rr := runDriver(*verif, *repo, pk, "", true)
+			st := map[string]any{"package": pk, "driver": rr.Driver, "command": rr.Command, "seconds": round3(time.Since(t1).Seconds()),
+				"bound": "seeded random operation histories / exhaustive short strings as stated at the top of the driver file; VERIF_REPLAY_DEEP=1 multiplies the iteration counts",
+				"label": "bounded", "counted_as_proved": false}
+			switch {
+			case !rr.Attempted:
+				st["result"] = "not run: " + rr.Note
+			case rr.Reproduced:
+				st["result"] = "counterexample"
+				fmt.Printf("FAILED bounded stand-in of package %s found a failing input\n", pk)
+				report("bounded-standin", "driver "+pk, map[string]any{"replay": rr, "note": "found by the bounded model-based driver on the real code, with every obligation of the property possibly discharged: either a gap between contracts and property or an assumption that does not hold"}, true)
+			default:
+				st["result"] = "no failing input within the bound"
+				if rr.Note != "" && !strings.Contains(rr.Note, "found no failing input") {
+					st["result"] = rr.Note
+				}
+			}
+			standins = append(standins, st)
+		}
+	}
 	// evidence
 	var samples []any
 	cnt := 0
@@ -405,7 +432,7 @@ func checkMain(args []string) {
 		"vacuous":                  vacuous,
 		"structural_obligations":   len(structs),
 		"not_decided":              cfg.NotDecided,
-		"bounded_standins":         cfg.Bounded,
+		"bounded_standins":         standins,
 		"known_findings_reported":  len(known),
 		"load_seconds":             round3(eng.loadSeconds),
 		"paths_explored":           sumPaths(reports),
@@ -514,3 +541,11 @@ type replayResult struct {
 }
 
 var _ = ssa.BuilderMode(0)
+
+// standinPkgs: the packages whose drivers exercise the functions a property depends on.
+var standinPkgs = map[string][]string{
+	"C01": {"db", "acl", "server"}, "C02": {"db"}, "C03": {"db"}, "C04": {"db"}, "C05": {"db"}, "C06": {"db", "audit", "server"},
+	"C07": {"acl"}, "C08": {"server"}, "C09": {"db", "server", "client/setec"}, "C10": {"client/setec"}, "C11": {"client/setec"},
+	"C12": {"client/setec"}, "C13": {"client/setec"}, "C14": {"db"}, "C15": {"client/setec"}, "C16": {"client/setec"},
+	"C17": {"server"}, "C18": {"db", "client/setec", "cmd/setec"}, "C19": {"client/setec"}, "C20": {"client/setec"},
+}
